@@ -12,7 +12,9 @@ VTOL = 1e-6  # eigen / singular values must be this close to the integer lattice
 RTOL = 1e-7  # relative residual of an eigen / singular equation
 OTOL = 1e-6  # entries of the Gram matrix
 FTOL = 1e-8  # entries of matrix functions (relative to the largest entry)
-FTOL_SQRT = 1e-6  # square roots: sqrt turns an eigenvalue 1e-16 (exact 0) into 1e-8
+# square root of a matrix with an exactly zero eigenvalue: sqrt is not Lipschitz at 0, the eigenvalue comes back
+# as +-n*eps*||A|| at best, so the root carries sqrt(n*eps*||A||_2); SQRT_SAFETY times that bound is accepted
+SQRT_SAFETY = 20.0
 QCAP = 1000  # defects are reported up to 1000 x tolerance (keeps records reproducible where ARPACK restarts are not)
 
 
@@ -50,12 +52,14 @@ def snap_gvals(vals, tol=VTOL):
     return out
 
 
-def snap_gmat(M, scale, tol=FTOL):
-    """array -> flat row-major list of [re, im] of scale*M, tolerance relative to the largest entry."""
+def snap_gmat(M, scale, tol=FTOL, atol=0.0):
+    """array -> flat row-major list of [re, im] of scale*M; tolerance relative to the largest entry,
+    or the absolute floor `atol` (in units of the scaled entries) if that is larger."""
     M = np.asarray(M, dtype=complex) * scale
     if not np.all(np.isfinite(M)):
         return None
     t = tol * max(1.0, float(np.max(np.abs(M)))) if M.size else tol
+    t = max(t, atol)
     out = []
     for x in M.reshape(-1):
         re, im = round(x.real), round(x.imag)
@@ -224,12 +228,18 @@ class Catch:
 
     CONV = ("not reaching the requested tolerance", "did not converge", "No convergence")
 
+    calls = 0  # per-process call counter: the n-th observed call always gets the same global seed
+
     def __init__(self):
         self.exc = ""
         self.warn = False
         self.value = None
 
-    def run(self, f):
+    def run(self, f, seed=None):
+        # scipy's 1-norm estimator (expm, expm_multiply, sqrtm of sparse / matrix-free operators) draws its
+        # start vectors from numpy's *global* legacy generator: seed it so that records are reproducible
+        Catch.calls += 1
+        np.random.seed(1_000_003 + Catch.calls if seed is None else seed)
         with warnings.catch_warnings(record=True) as w:
             warnings.simplefilter("always")
             try:
